@@ -12,6 +12,7 @@ import MtailVerif.Driver.C18
 import MtailVerif.Driver.C17
 import MtailVerif.Driver.C19
 import MtailVerif.Driver.C02
+import MtailVerif.Driver.VMSrv
 /-! `mtailmodel <prop>`: reads the case lines written by the Go harness on stdin and prints
     `<id> OBS <observation>` computed by the Lean model.  Core Lean only (links as an exe). -/
 open MtailVerif MtailVerif.Driver
@@ -52,6 +53,7 @@ partial def loop (h : IO.FS.Stream) (out : IO.FS.Stream) (f : List String → St
 
 def main (args : List String) : IO UInt32 := do
   match args with
+  | ["VMSRV"] => VMSrv.main
   | [prop] =>
     match handlerFor prop with
     | some f =>
